@@ -136,8 +136,8 @@ type Client interface {
 
 type BlockWise[C Client] struct {
 	cc                        C
-	receivingMessagesCache    *cache.Cache[uint64, *messageGuard]
-	sendingMessagesCache      *cache.Cache[uint64, *pool.Message]
+	receivingMessagesCache    *cache.Cache[string, *messageGuard]
+	sendingMessagesCache      *cache.Cache[string, *pool.Message]
 	errors                    func(error)
 	getSentRequestFromOutside func(token message.Token) (*pool.Message, bool)
 	expiration                time.Duration
@@ -168,8 +168,8 @@ func New[C Client](
 	}
 	return &BlockWise[C]{
 		cc:                        cc,
-		receivingMessagesCache:    cache.NewCache[uint64, *messageGuard](),
-		sendingMessagesCache:      cache.NewCache[uint64, *pool.Message](),
+		receivingMessagesCache:    cache.NewCache[string, *messageGuard](),
+		sendingMessagesCache:      cache.NewCache[string, *pool.Message](),
 		errors:                    errors,
 		getSentRequestFromOutside: getSentRequestFromOutside,
 		expiration:                expiration,
@@ -215,14 +215,14 @@ func (b *BlockWise[C]) Do(r *pool.Message, maxSzx SZX, maxMessageSize uint32, do
 	// on its own. An expiry after the transfer timeout would take it away from under a call that is still waiting -
 	// for a retransmission to get through, or for a slow peer - and make the answer unusable when it comes.
 	expire, _ := r.Context().Deadline()
-	_, loaded := b.sendingMessagesCache.LoadOrStore(r.Token().Hash(), cache.NewElement(r, expire, nil))
+	_, loaded := b.sendingMessagesCache.LoadOrStore(string(r.Token()), cache.NewElement(r, expire, nil))
 	if loaded {
 		return nil, errors.New("invalid token")
 	}
-	defer b.sendingMessagesCache.Delete(r.Token().Hash())
+	defer b.sendingMessagesCache.Delete(string(r.Token()))
 	// whatever has been collected of a block-wise response belongs to this call: when it ends - by cancellation or an
 	// error in the middle of the transfer - nothing is kept (a completed transfer has removed it already)
-	defer b.receivingMessagesCache.Delete(r.Token().Hash())
+	defer b.receivingMessagesCache.Delete(string(r.Token()))
 	if r.Body() == nil {
 		return do(r)
 	}
@@ -351,7 +351,7 @@ func wantsToBeReceived(r *pool.Message) bool {
 	return true
 }
 
-func (b *BlockWise[C]) getSendingMessageCode(token uint64) (codes.Code, bool) {
+func (b *BlockWise[C]) getSendingMessageCode(token string) (codes.Code, bool) {
 	v := b.sendingMessagesCache.Load(token)
 	if v == nil {
 		return codes.Empty, false
@@ -374,7 +374,7 @@ func (b *BlockWise[C]) Handle(w *responsewriter.ResponseWriter[C], r *pool.Messa
 		}
 		return
 	}
-	tokenStr := token.Hash()
+	tokenStr := string(token)
 
 	sendingMessageCode, sendingMessageExist := b.getSendingMessageCode(tokenStr)
 	// What is being sent under this token is continued only by its counterpart: a response we serve block by block
@@ -558,7 +558,7 @@ func (b *BlockWise[C]) continueSendingMessage(w *responsewriter.ResponseWriter[C
 	}
 	var sendMessage *pool.Message
 	var more bool
-	b.sendingMessagesCache.LoadWithFunc(r.Token().Hash(), func(value *cache.Element[*pool.Message]) *cache.Element[*pool.Message] {
+	b.sendingMessagesCache.LoadWithFunc(string(r.Token()), func(value *cache.Element[*pool.Message]) *cache.Element[*pool.Message] {
 		sendMessage, more, err = b.createSendingMessage(value.Data(), maxSZX, maxMessageSize, block, true)
 		if err != nil {
 			err = fmt.Errorf("cannot create sending message: %w", err)
@@ -606,7 +606,7 @@ func (b *BlockWise[C]) startSendingMessage(w *responsewriter.ResponseWriter[C], 
 	if !ok {
 		expire = time.Now().Add(b.expiration)
 	}
-	el, loaded := b.sendingMessagesCache.LoadOrStore(sendingMessage.Token().Hash(), cache.NewElement(originalSendingMessage, expire, nil))
+	el, loaded := b.sendingMessagesCache.LoadOrStore(string(sendingMessage.Token()), cache.NewElement(originalSendingMessage, expire, nil))
 	if loaded {
 		defer b.cc.ReleaseMessage(originalSendingMessage)
 		return fmt.Errorf("cannot add message (%v) to sending message cache: message(%v) with token(%v) already exist", originalSendingMessage, el.Data(), sendingMessage.Token())
@@ -615,7 +615,7 @@ func (b *BlockWise[C]) startSendingMessage(w *responsewriter.ResponseWriter[C], 
 }
 
 func (b *BlockWise[C]) getSentRequest(token message.Token) *pool.Message {
-	data, ok := b.sendingMessagesCache.LoadWithFunc(token.Hash(), func(value *cache.Element[*pool.Message]) *cache.Element[*pool.Message] {
+	data, ok := b.sendingMessagesCache.LoadWithFunc(string(token), func(value *cache.Element[*pool.Message]) *cache.Element[*pool.Message] {
 		if value == nil {
 			return nil
 		}
@@ -651,7 +651,7 @@ func (b *BlockWise[C]) handleObserveResponse(sentRequest *pool.Message) (message
 	validUntil := time.Now().Add(b.expiration) // context of observation can be expired.
 	bwSentRequest := b.cloneMessage(sentRequest)
 	bwSentRequest.SetToken(token)
-	_, loaded := b.sendingMessagesCache.LoadOrStore(token.Hash(), cache.NewElement(bwSentRequest, validUntil, nil))
+	_, loaded := b.sendingMessagesCache.LoadOrStore(string(token), cache.NewElement(bwSentRequest, validUntil, nil))
 	if loaded {
 		return nil, time.Time{}, errors.New("cannot process message: message with token already exist")
 	}
@@ -730,7 +730,7 @@ func copyToPayloadFromOffset(r *pool.Message, payloadFile *memfile.File, offset 
 	return payloadSize, nil
 }
 
-func (b *BlockWise[C]) getCachedReceivedMessage(mg *messageGuard, r *pool.Message, tokenStr uint64, validUntil time.Time) (*pool.Message, func(), error) {
+func (b *BlockWise[C]) getCachedReceivedMessage(mg *messageGuard, r *pool.Message, tokenStr string, validUntil time.Time) (*pool.Message, func(), error) {
 	cannotLockError := func(err error) error {
 		return fmt.Errorf("processReceivedMessage: cannot lock message: %w", err)
 	}
@@ -833,7 +833,7 @@ func (b *BlockWise[C]) processReceivedMessage(w *responsewriter.ResponseWriter[C
 		}
 	}
 
-	tokenStr := token.Hash()
+	tokenStr := string(token)
 	var cachedReceivedMessageGuard *messageGuard
 	if e := b.receivingMessagesCache.Load(tokenStr); e != nil {
 		cachedReceivedMessageGuard = e.Data()
